@@ -7,9 +7,9 @@ from . import core, findings
 
 def jobs(ctx):
     q = ctx.tier == "quick"
-    per = 14 if q else 700
+    per = 90 if q else 700
     js = [("nucleo_hist", ["rand", per, k]) for k in range(core.NCPU)]
-    js += [("nucleo_hist", ["long", 3 if q else 120, 100 + k]) for k in range(4)]
+    js += [("nucleo_hist", ["long", 12 if q else 120, 100 + k]) for k in range(4)]
     return js
 
 
